@@ -36,7 +36,7 @@ def build(tsan):
     if os.path.exists(out) and os.path.exists(stamp) and open(stamp).read() == key:
         return out, ""
     cc = ["clang", "-std=gnu17", "-O1", "-g", "-fsanitize=thread"] if tsan else ["gcc", "-std=gnu17", "-O2"]
-    rc, log = V.sh(cc + ["-pthread", "-w", "-I" + os.path.join(V.REPO, "src"), '-DLIBWIFI_VERSION="v"',
+    rc, log = V.sh(cc + ["-pthread", "-w", "-Wl,--wrap=getrandom", "-I" + os.path.join(V.REPO, "src"), '-DLIBWIFI_VERSION="v"',
                          os.path.join(V.VERIF, "harness", "threads", "threads.c")] + srcs + ["-o", out], timeout=600)
     if rc != 0:
         return None, log
